@@ -263,6 +263,7 @@ SRC_MODULES = {
     "Anonymongo.Src.witness_callees": "EndToEnd",
     "Anonymongo.Src.ReadKeyFromFile_eq": "Key", "Anonymongo.Src.ReadKeyFromFile_accepts": "Key",
     "Anonymongo.Src.WriteKeyToFile_eq": "Key", "Anonymongo.Src.WriteKeyToFile_model": "Key", "Anonymongo.Src.Write_then_Read": "Key",
+    "Anonymongo.Src.FileExists_eq": "Key", "Anonymongo.Src.FileExists_model": "Key",
     "Anonymongo.Src.HashName_eq": "Hash", "Anonymongo.Src.trimLeftCutset_dollar": "Hash",
     "Anonymongo.Src.redactQueryValues_eq": "Walk", "Anonymongo.Src.redactArrayValuesWithKey_eq": "Walk", "Anonymongo.Src.redactArrayValues_eq": "Walk",
     "Anonymongo.Src.redactQueryValues_eq_gen": "Walk", "Anonymongo.Src.QA_all": "Walk", "Anonymongo.Src.Q_step": "Walk", "Anonymongo.Src.A_step": "Walk",
@@ -288,7 +289,7 @@ SRC_THEOREMS = {
     "C07": _LEAF + _PATH + _HELP + _WALK + _DISP + _CMD + ["Anonymongo.Src.redactNamespace_eq"] + _LINE,
     "C10": ["Anonymongo.Src.redactString_eq", "Anonymongo.Src.redactScalarValue_eq"] + _WALK,
     "C11": ["Anonymongo.Src.ReadKeyFromFile_eq", "Anonymongo.Src.ReadKeyFromFile_accepts", "Anonymongo.Src.WriteKeyToFile_eq",
-            "Anonymongo.Src.WriteKeyToFile_model", "Anonymongo.Src.Write_then_Read"],
+            "Anonymongo.Src.WriteKeyToFile_model", "Anonymongo.Src.Write_then_Read", "Anonymongo.Src.FileExists_eq", "Anonymongo.Src.FileExists_model"],
     "C12": ["Anonymongo.Src.getOp_eq", "Anonymongo.Src.traverseMapPath_eq", "Anonymongo.Src.HashName_eq", "Anonymongo.Src.redactNamespaceFields_eq", "Anonymongo.Src.Gen_searchedFields",
             "Anonymongo.Src.redactNamespace_eq", "Anonymongo.Src.blkLoop", "Anonymongo.Src.blkInner"] + _LINE,
     "C13": ["Anonymongo.Src.HashName_eq", "Anonymongo.Src.trimLeftCutset_dollar"],
